@@ -152,6 +152,8 @@ class StorageWorld(StorageBase):
         }
         if prop == "C11" and rng.random() < 0.2:
             h["focus"] = "metadata"
+        if tier == "thorough" and rng.random() < 0.25:
+            h["n_ops"] = rng.randint(28, 90)
         return h
 
     def __init__(self, run, header):
